@@ -27,7 +27,7 @@ CHECKS = [
        "Independently the Lean VM model executes the REAL compiler's bytecode for every program and must agree with the real VM (value, observations, error line, stack height).",
        "Kernel-checked for the core fragment (literals, all operators with the right-to-left < and <=, && ||, if/else expressions, global let and assignment, blocks, while loops): Core.compile_correct / sound_all / "
        "compile_sound_core — every terminating run of the reference evaluation is reproduced by the compiled code from the empty stack back to the empty stack; the functional compiler is byte-exact with the real compiler "
-       "(op `core`, and `core2` for the REPL's carried state). Outside the fragment (functions, closures, arrays, maps, match, break/continue) the three-way differential run decides."),
+       "(op `core`, and `core2` for the REPL's carried state). The fragment now also has match expressions, loop / labelled break / continue, statement-level if and FIRST-ORDER FUNCTIONS (Core/Fn: parameters, locals, return and implicit return, recursion; compile_sound_functions, call_correct, program_correct_fn — a call evaluates callee and arguments left to right, checks the arity, runs the body in a fresh frame and leaves exactly one value with the caller's stack restored, also on return from nested loops). Outside the fragment (closures capturing locals, nested function definitions, arrays, maps) the three-way differential run and the bytecode verifier decide."),
     _c("C03", "Lean theorems over translator-generated PARSE_RULES/Precedence tables vs the documented table + min/full parenthesisation differential run",
        "Kernel-checked: every operator token's rule has the documented rank and associativity, the Pratt loop tests `<` for left and `≤` for right associativity, prefix operands parse at "
        "Unary, every token with precedence has an infix parser. The run renders every tree minimally (documented table) and fully parenthesised: the real parser must yield the same AST and "
